@@ -31,6 +31,17 @@ def capOf (r : Option (C.Obj × C.Heap)) : Nat :=
   | some r => r.1.capacity
   | none => 0
 
+theorem ble_dec (a b : Nat) : Nat.ble a b = decide (a ≤ b) := by
+  by_cases h : a ≤ b
+  · simp [h, Nat.ble_eq]
+  · have : ¬ (Nat.ble a b = true) := fun hh => h (Nat.ble_eq ▸ hh)
+    simp [h, this]
+theorem blt_dec (a b : Nat) : Nat.blt a b = decide (a < b) := by
+  by_cases h : a < b
+  · simp [h, Nat.blt_eq]
+  · have : ¬ (Nat.blt a b = true) := fun hh => h (Nat.blt_eq ▸ hh)
+    simp [h, this]
+
 /-- conditions are decided by `omega` from the case hypotheses, whatever way the source spells them -/
 theorem dec_true {p : Prop} [Decidable p] (h : p) : decide p = true := by simp [h]
 theorem dec_false {p : Prop} [Decidable p] (h : ¬ p) : decide p = false := by simp [h]
@@ -38,7 +49,7 @@ theorem dec_false {p : Prop} [Decidable p] (h : ¬ p) : decide p = false := by s
 /-- unfold both machines and compute; side conditions of the checked loads/stores by `omega` -/
 macro "tr_simp1" "[" ts:Lean.Parser.Tactic.simpLemma,* "]" loc:(Lean.Parser.Tactic.location)? : tactic => `(tactic|
   simp (disch := ((try simp only [rd_length, wr_length, fresh_length, List.length_cons, List.length_nil, List.length_map, bytesOf]); omega))
-    [tr_gen, capOf, Nat.max_self, Nat.max_eq_left, Nat.max_eq_right, objOf, heapOf, blocksOf, attOf, out, outB, bind, pure, branch, val, C.led, ngt, nlt, nge, nle, neq, nadd, nsub, nmul, ndiv, nshr, nshl, Nat.pow_one, pdiff, padd, psub,
+    [tr_gen, capOf, ble_dec, blt_dec, Base.isNull, Nat.max_self, Nat.max_eq_left, Nat.max_eq_right, objOf, heapOf, blocksOf, attOf, out, outB, bind, pure, branch, val, C.led, ngt, nlt, nge, nle, neq, nadd, nsub, nmul, ndiv, nshr, nshl, Nat.pow_one, pdiff, padd, psub,
      ple, plt, pge, pgt, peq, prel, tern, band, bor, bnot, truthy, nullPtr, cellPtr,
      newArr, memcopy, memmove, load, store, store0, deleteArr, getBlk, setBlk, disjoint, allocId, checkLive, deleteId, newBlock,
      Store.load, Store.write, Store.release, liftO, newCap, ptrSub, Buf.termIfOwning, Buf.home, Buf.owning, Buf.default, cfault, fault,
